@@ -1267,7 +1267,7 @@ func (a *alertState) percentChange() float64 {
 	step := (maxWeight - weight) / float64(l-1)
 	for i := 0; i < l-1; i++ {
 		// get current index
-		c := (i + a.idx) % l
+		c := (i + a.idx + 2) % l
 		// get previous index
 		p := c - 1
 		// check for wrap around
